@@ -4,8 +4,17 @@
    Compile/SeqIf.lean; with b = false the theorem is unconditional. -/
 import JanetModel.Compile.SeqCallN
 import JanetModel.Compile.SeqPush
+import JanetModel.Compile.SeqShape
 namespace JanetModel.Compile
 open JanetModel.Emit JanetModel.Lang JanetModel.Bytecode.Exec JanetModel.Gen.Bytecode
+
+/-- the source map stays as long as the code across a compiled form of the fragment (compile-only, from `tf_shape`) -/
+theorem tf_ML (G : String → Prop) (b w : Bool) (fuel : Nat) : MLAt G (TF G b) w fuel := by
+  intro _ e opts c c' slot sc rs pool ps env nb ht hh hs hp htop hT hE hc hm
+  obtain ⟨⟨ra', ns, more, seg, segm, hc', _, _, hl⟩, _⟩ := tf_shape G b fuel e opts c c' slot sc rs pool ps ht hh hs hp htop hT hE.lkl hc
+  rw [hc']
+  simp only [List.length_append]
+  omega
 
 section
 variable (p : Program) (f0 : Frame) (rest : List Frame) (V : Array Value) (P : List KConst)
@@ -16,6 +25,7 @@ def IfCase (G : String → Prop) (b : Bool) (fuel : Nat) : Prop :=
   ∀ (opts : Fopts) (c c' : CState) (slot : JSlot) (sc : Scope) (rs : List Scope) (pool : List KConst) (ps : List (List KConst))
     (n : Nat) (cur : Pos) (env env' : Env) (s s' : SS) (v : Value),
     opts.tail = false → opts.hint = none → c.scopes = sc :: rs → c.pools = pool :: ps → c.lim ≤ 240 → sc.top = false →
+    c.map.length = c.buf.length →
     cValue (fuel + 1) opts (.form (.sym "if" :: cnd :: tb :: els) pp) c = some (slot, c') →
     eval n cur env (.form (.sym "if" :: cnd :: tb :: els) pp) s = .ok (v, env') s' → EnvS G c.scopes env s.boxes.size sc.ra →
     Correct2 p f0 rest V P G opts.drop c c' slot sc rs pool ps env env' s s' v
@@ -28,10 +38,11 @@ theorem tf_correct (hP : P.length < 65536)
   intro fuel
   induction fuel with
   | zero =>
-    intro e opts c c' slot sc rs pool ps n cur env env' s s' v _ _ _ _ _ _ _ hc
+    intro e opts c c' slot sc rs pool ps n cur env env' s s' v _ _ _ _ _ _ _ _ hc
     simp [cValue] at hc
   | succ fuel ih =>
-    intro e opts c c' slot sc rs pool ps n cur env env' s s' v ht hh hs hp hl htop hTS hc hsem hE
+    intro e opts c c' slot sc rs pool ps n cur env env' s s' v ht hh hs hp hl htop hm hTS hc hsem hE
+    have ML : MLAt G (TF G b) w fuel := tf_ML G b w fuel
     cases hTS with
     | lit w hw =>
       rw [cValue_lit_o fuel opts ht hh w hw c] at hc
@@ -95,8 +106,8 @@ theorem tf_correct (hP : P.length < 65536)
         obtain ⟨n2, vs, s_a, hn, hsa, happ⟩ := eval_callN_inv n cur env env' f args pp s s' v hf hgl hsem
         rw [hq] at hcc
         exact Correct2.recur p f0 rest V P (q := q) (Correct2.weaken p f0 rest V P _
-          (callN_core p f0 rest V P hP hK (pushN p f0 rest V P hP hK) FF G (TF G b) w fuel ih (fun a h => h.notSplice) f args hna hG hTa
-            { c with cur := q } cq slot0 sc rs pool ps n2 (posOf cur pp) env env' s s_a s' vs v hs hp hl htop hcc hsa happ hE))
+          (callN_core p f0 rest V P hP hK (pushN p f0 rest V P hP hK) FF G (TF G b) w fuel ih ML (fun a h => h.notSplice) f args hna hG hTa
+            { c with cur := q } cq slot0 sc rs pool ps n2 (posOf cur pp) env env' s s_a s' vs v hs hp hl htop hm hcc hsa happ hE))
     | doo body pp hT =>
       rw [cValue_do_o fuel opts ht hh body pp c] at hc
       obtain ⟨q, hq⟩ := curAt_eq c pp
@@ -112,8 +123,8 @@ theorem tf_correct (hP : P.length < 65536)
         subst henv
         rw [hq] at hcc
         exact Correct2.recur p f0 rest V P (q := q)
-          (do_core p f0 rest V P G (TF G b) w fuel ih body hT opts { c with cur := q } cq slot0 sc rs pool ps n2 (posOf cur pp) env' envb s s' v
-            ht hh hs hp hl hcc hseq hE)
+          (do_core p f0 rest V P G (TF G b) w fuel ih ML body hT opts { c with cur := q } cq slot0 sc rs pool ps n2 (posOf cur pp) env' envb s s' v
+            ht hh hs hp hl hm hcc hseq hE)
     | ups body pp hT =>
       rw [cValue_upscope_o fuel opts ht hh body pp c] at hc
       obtain ⟨q, hq⟩ := curAt_eq c pp
@@ -131,8 +142,8 @@ theorem tf_correct (hP : P.length < 65536)
           rw [eval_upscope] at hsem
           rw [hq] at hcc
           exact Correct2.recur p f0 rest V P (q := q)
-            (doBody_correct p f0 rest V P G (TF G b) w fuel ih body hT opts { c with cur := q } cq slot0 sc rs pool ps n2 (posOf cur pp) env env' s s' v
-              ht hh hs hp hl htop hcc hsem hE)
+            (doBody_correct p f0 rest V P G (TF G b) w fuel ih ML body hT opts { c with cur := q } cq slot0 sc rs pool ps n2 (posOf cur pp) env env' s s' v
+              ht hh hs hp hl htop hm hcc hsem hE)
     | deff x ve pp hGx hTv =>
       rw [cValue_def_o fuel opts ht hh x ve pp c] at hc
       obtain ⟨q, hq⟩ := curAt_eq c pp
@@ -149,10 +160,10 @@ theorem tf_correct (hP : P.length < 65536)
         rw [hq] at hcc
         exact Correct2.recur p f0 rest V P (q := q) (Correct2.weaken p f0 rest V P _
           (def_core p f0 rest V P hP hK G (TF G b) w fuel ih x ve hGx hTv { c with cur := q } cq slot0 sc rs pool ps n2 (posOf cur pp) env env1 s s1 v
-            hs hp hl htop hcc hev hE))
+            hs hp hl htop hm hcc hev hE))
     | iff cnd tb els pp hb hic hlen hTc hTt hTe =>
       obtain ⟨hw, H⟩ := IFC hb
-      have := H fuel ih cnd tb els pp hic hlen hTc hTt hTe opts c c' slot sc rs pool ps n cur env env' s s' v ht hh hs hp hl htop hc hsem hE
+      have := H fuel ih cnd tb els pp hic hlen hTc hTt hTe opts c c' slot sc rs pool ps n cur env env' s s' v ht hh hs hp hl htop (hm hw) hc hsem hE
       rw [hw, Bool.and_true]
       exact this
 
@@ -167,7 +178,7 @@ theorem tf_correct_calls (hP : P.length < 65536)
     (hE : EnvS G c.scopes env s.boxes.size sc.ra) :
     Correct2 p f0 rest V P G false c c' slot sc rs pool ps env env' s s' v := by
   have h := tf_correct p f0 rest V P hP hK FF G false false (fun h => absurd h (by simp)) fuel e opts c c' slot sc rs pool ps n cur env env' s s' v
-    ht hh hs hp hl htop hT hc hsem hE
+    ht hh hs hp hl htop (fun h => absurd h (by simp)) hT hc hsem hE
   rw [Bool.and_false] at h
   exact h
 
